@@ -31,7 +31,7 @@ def bases(tier):
     d1 = [t for t in T.compose1(T.leaves(T.K4)) if t.kind != "union"]
     extra = d1[::7] if tier == "quick" else d1
     flav = [T.LEAVES[n] for n in ("DCslots", "DCfrozen", "TDnr", "PC", "SC")]
-    return ks + flav + extra
+    return ks + flav + extra + [T.BYTES_LEAVES["bytes"], T.BYTES_LEAVES["bytearray"]]
 
 
 @functools.lru_cache(maxsize=None)
@@ -41,6 +41,9 @@ def chains(tier):
         for inner in itertools.product(INNER, repeat=n - 1):
             for o in OUTER:
                 out.append(tuple(inner) + (o,))
+    if MAXCHAIN[tier] < 3:
+        # a handful of length-3 chains (alternating alias / NewType) also in the quick tier
+        out += [("alias", "newtype", "alias"), ("newtype", "alias", "newtype"), ("stralias", "newtype", "alias"), ("alias", "newtype", "final")]
     return out
 
 
@@ -224,7 +227,8 @@ def run_program(bi, base, chain, pos, future, tier, res, only_origin=None):
                 continue
             bad = next((b for b in bw if not b.ok), None)
             if bad is not None:
-                res.violation(f"C11/{pos}/outer={chain[-1]}/build/{oname}/{'no-termination' if bad.timeout else bad.excname}", f"the wrapped program cannot be built ({bad!r}) but the unwrapped one can; {desc}", c2)
+                inner = "inner=none" if len(chain) == 1 else "inner=wrapped"
+                res.violation(f"C11/{pos}/outer={chain[-1]},{inner}/build/{oname}/{'no-termination' if bad.timeout else bad.excname}", f"the wrapped program cannot be built ({bad!r}) but the unwrapped one can; {desc}", c2)
                 continue
             uw, mw, cw = (b.val for b in bw)
             up, mp, cp = (b.val for b in bp)
@@ -354,6 +358,11 @@ def run_special(res):
     # qualified references from another module: top-level class, class nested in a class, module-level alias
     cold.clear_all()
     q = prelude.mkmod("tlg_c11_q", "import dataclasses\nclass Canvas:\n    @dataclasses.dataclass\n    class Pixel:\n        x: int\n@dataclasses.dataclass\nclass Top:\n    x: int\nAliasTop = Top\n").__dict__
+    o = call(typelib.unmarshal, "tlg_c11_q.Top | tlg_c11_q.Canvas.Pixel | None", {"x": "1"})
+    res.evals += 1
+    if not (o.ok and same(o.val, q["Top"](1))):
+        res.violation("C11/special/qualified-reference/union-of-two-qualified-names/" + ("raises:" + o.excname if not o.ok else "differs"),
+                      f"unmarshal('tlg_c11_q.Top | tlg_c11_q.Canvas.Pixel | None', ...) -> {short(o.val if o.ok else o.exc, 100)}", {"kind": "special", "desc": "qualified string references"})
     for ref, cls in (("tlg_c11_q.Top", q["Top"]), ("tlg_c11_q.Canvas.Pixel", q["Canvas"].Pixel), ("tlg_c11_q.AliasTop", q["Top"])):
         for fn_name, fn in (("unmarshal", lambda r: typelib.unmarshal(r, {"x": "1"})), ("marshal", lambda r, cls=cls: typelib.marshal(cls(1), t=r))):
             cold.clear_all()
